@@ -78,8 +78,8 @@ def peer_fragments(tier, wd):
     import ost_check
     known = vlib.load_known()
     devs = ost_check.open_devs(known)
-    ost_check.ensure_dev_defs([devs])
-    mst_check.ensure_dev_defs(mst_check.open_devs(known))
+    ost_check.ensure_dev_defs([devs] + [[d] for d in devs])
+    mst_check.ensure_dev_defs(mst_check.open_devs(known), mst_check.sensitivity("C15", "quick", None)[1])
     num = 40 if tier == "quick" else 600
     lines, programs = [], set()
     abstract = list(ost_check.corpus())
